@@ -17,9 +17,9 @@ def measure(check, prop):
     vs = []
     for v in VARIANTS:
         if prop in v["fire"]:
-            vs.append({"id": v["id"], "fire": {prop: v["fire"][prop]}, "silent": [], "edits": v["edits"], "note": v.get("note", "")})
+            vs.append({"id": v["id"], "fire": {prop: v["fire"][prop]}, "silent": [], "edits": v["edits"], "note": v.get("note", ""), "tier": v.get("tier", "quick")})
         elif prop in v["silent"]:
-            vs.append({"id": v["id"], "fire": {}, "silent": [prop], "edits": v["edits"], "note": v.get("note", "")})
+            vs.append({"id": v["id"], "fire": {}, "silent": [prop], "edits": v["edits"], "note": v.get("note", ""), "tier": v.get("tier", "quick")})
     if not vs:
         return
     base_root = tempfile.mkdtemp(prefix="xsm_sens_base_")
